@@ -149,6 +149,8 @@ def run_model(lines, timeout=1800):
     """Pipe protocol lines to the native driver; one reply line per command line."""
     if not os.path.exists(DRIVER):
         raise Infra("driver not built: " + DRIVER)
+    if not lines:
+        return []
     data = "\n".join(lines) + "\n"
     p = subprocess.run([DRIVER], input=data, stdout=subprocess.PIPE, stderr=subprocess.PIPE, text=True,
                        timeout=timeout)
